@@ -41,6 +41,11 @@ def patch_worker():
     import gearpy.motor_control.rules.start_limit_current as SLC
     import numpy
     SLC.__dict__["np"] = patch._MathProxy(numpy, {"sqrt": sym.sym_sqrt})
+    # the arbitration method goes through the loop/comprehension rewriter (sets of symbolic proposals -> SymSet)
+    from pycv import loops
+    import gearpy.motor_control.pwm_control as PC
+    loops.rewrite_method(PC.PWMControl, "apply_rules")
+    patch.PATCH_LOG.append("gearpy.motor_control.pwm_control.PWMControl.apply_rules: for/comprehension headers wrapped (vcloop_/vccomp_/vcset_), body unchanged")
 
 
 # =====================================================================================================
